@@ -133,6 +133,18 @@ Theorem C09_full_euler : forall c n, wf c = true -> g_euler c = true -> g_delays
 Proof. exact full_up_to_heun. Qed.
 Print Assumptions C09_full_euler.
 
+(* D118, repaired in /repo (model switch Ring.fixed_one_step_per_edge = true): a delay of at most one step is neglected per edge.
+   Before the fix (Ring.rsteps_before_fix) the one-step delay of an edge was realised as a one-step ring-buffer delay exactly when a sibling
+   edge of the same (merged) source variable had >= 2 steps — what an edge did depended on its siblings.  Such delays are outside the
+   property's scope (g_delays_ge2), so this is a note about the mechanism model, not a theorem about the property. *)
+Definition w_one_step := mkC dt8 false false [S1; T0; T0]
+  [mkEdge 0 1 (mkq 1 1) (Delay (mkq 1 8)); mkEdge 0 2 (mkq 1 1) (Delay (mkq 3 8))].
+Example C09_one_step_before_fix :
+  map (rsteps dt8) (cedges w_one_step) = [0; 3]%nat /\ map (rsteps_before_fix dt8) (cedges w_one_step) = [1; 3]%nat /\
+  g_delays_ge2 w_one_step = false.
+Proof. repeat split; vm_compute; reflexivity. Qed.
+Print Assumptions C09_one_step_before_fix.
+
 Theorem C09_full_refuted : ~ C09_full_statement.
 Proof.
   intros H. destruct C09_refuted_heun as [Hw [Hg [_ Hne]]]. apply Hne. apply H; assumption.
